@@ -8,6 +8,7 @@ import (
 	"go/types"
 	"math"
 
+	kstrings "github.com/mazrean/kessoku/internal/pkg/strings"
 	vs "github.com/mazrean/kessoku/internal/verifspec"
 )
 
@@ -68,6 +69,7 @@ func contract_VarPool_GetChannel(p *VarPool, t types.Type) (result string) {
 //kvc:contract (*VarPool).Get
 func contract_VarPool_Get(p *VarPool, t types.Type) (result string) {
 	vs.Requires(poolInv(p))
+	vs.Ensures("nonempty", result != "")
 	vs.Ensures("fresh", !vs.Old(issued(p, result)))
 	vs.Ensures("recorded", issued(p, result))
 	vs.Ensures("monotone", vs.ForallString(func(s string) bool { return vs.Implies(vs.Old(issued(p, s)), issued(p, s)) }))
@@ -80,8 +82,20 @@ func contract_VarPool_Get(p *VarPool, t types.Type) (result string) {
 //
 //kvc:contract (*VarPool).getBaseName
 func contract_VarPool_getBaseName(p *VarPool, t types.Type) (result string) {
+	vs.Ensures("nonempty", result != "")
 	return
 }
+
+// Names of declared types are non-empty, and lower-camel-casing keeps a name non-empty (trusted facts
+// about go/types and internal/pkg/strings; the latter is length preserving).
+//
+//kvc:axiom
+func axiomTypeNamesNonEmpty() bool {
+	return vs.ForallRef(func(o *types.TypeName) bool { return lowerCamelOf(o.Name()) != "" }) &&
+		vs.ForallRef(func(b *types.Basic) bool { return lowerCamelOf(b.Name()) != "" })
+}
+
+func lowerCamelOf(s string) string { return kstrings.ToLowerCamel(s) }
 
 //kvc:contract NewVarPool
 func contract_NewVarPool() (result *VarPool) {
@@ -147,6 +161,7 @@ func contract_InjectorParam_Name(ip *InjectorParam, varPool *VarPool) (result st
 		vs.ForallString(func(s string) bool { return varPool.vars[s] == vs.Old(varPool.vars[s]) })))
 	vs.Ensures("unreferenced_blank", vs.Implies(vs.Old(ip.name) == "" && ip.refCounter == 0, result == "_" && ip.name == ""))
 	vs.Ensures("fresh_when_allocated", vs.Implies(vs.Old(ip.name) == "" && ip.refCounter != 0, !vs.Old(issued(varPool, result)) && issued(varPool, result) && ip.name == result))
+	vs.Ensures("referenced_is_memoised", vs.Implies(ip.refCounter != 0, result == ip.name && result != ""))
 	vs.Ensures("monotone", vs.ForallString(func(s string) bool { return vs.Implies(vs.Old(issued(varPool, s)), issued(varPool, s)) }))
 	vs.Ensures("inv", poolInv(varPool))
 	vs.Modifies(ip.name, varPool.vars)
@@ -482,21 +497,24 @@ func contract_channelsClose(stmt *InjectorProviderCallStmt, channels []ast.Expr)
 // Which channels a provider call waits on / closes (C01, C03)
 // ---------------------------------------------------------------------------
 
-// gChans: the channel expressions collected by the statement builder in progress (ghost).
-var gChans []ast.Expr
+// gWaitChans / gCloseChans: the channel expressions collected by the wait / close statement builder (ghost).
+var (
+	gWaitChans  []ast.Expr
+	gCloseChans []ast.Expr
+)
 
 //kvc:ghost (*InjectorProviderCallStmt).generateChannelWaitStatement before "return stmt.channelsWait(channels"
-func ghostWaitChans(channels []ast.Expr) { gChans = channels }
+func ghostWaitChans(channels []ast.Expr) { gWaitChans = channels }
 
 //kvc:ghost (*InjectorProviderCallStmt).generateChannelCloseStatement before "return stmt.channelsClose(channels)"
-func ghostCloseChans(channels []ast.Expr) { gChans = channels }
+func ghostCloseChans(channels []ast.Expr) { gCloseChans = channels }
 
 func callStmtWellFormed(stmt *InjectorProviderCallStmt) bool {
 	return stmt != nil &&
 		vs.Forall(len(stmt.Arguments), func(k int) bool {
-			return stmt.Arguments[k] != nil && stmt.Arguments[k].Param != nil && len(stmt.Arguments[k].Param.types) >= 1 && stmt.Arguments[k].Param.refCounter > 0
+			return vs.IsAllocated(stmt.Arguments[k]) && vs.IsAllocated(stmt.Arguments[k].Param) && len(stmt.Arguments[k].Param.types) >= 1 && stmt.Arguments[k].Param.refCounter > 0
 		}) &&
-		vs.Forall(len(stmt.Returns), func(k int) bool { return stmt.Returns[k] != nil && len(stmt.Returns[k].types) >= 1 })
+		vs.Forall(len(stmt.Returns), func(k int) bool { return vs.IsAllocated(stmt.Returns[k]) && len(stmt.Returns[k].types) >= 1 })
 }
 
 // waitedArg: argument k is produced on another thread, so the call must wait for its completion signal.
@@ -529,11 +547,12 @@ func contract_generateChannelWaitStatement(stmt *InjectorProviderCallStmt, varPo
 	vs.Ensures("no_wait_iff_nothing_to_wait_for", (result == nil) == vs.Forall(len(stmt.Arguments), func(k int) bool { return !waitedArg(stmt, k) }))
 	// C01: before the provider is called, the completion signal of every input produced on another thread is awaited
 	vs.Ensures("waits_for_every_cross_thread_input", vs.Implies(result != nil,
-		isWaitAll(result, gChans, injectorHasCtx(injector) && returnErrStmts != nil) && everyWaitedArgIn(stmt, len(stmt.Arguments), gChans)))
+		isWaitAll(result, gWaitChans, injectorHasCtx(injector) && returnErrStmts != nil) && everyWaitedArgIn(stmt, len(stmt.Arguments), gWaitChans)))
 	// C03: and it waits for nothing else
-	vs.Ensures("waits_only_for_inputs", vs.Implies(result != nil, onlyWaitedArgsIn(stmt, len(stmt.Arguments), gChans)))
+	vs.Ensures("q_waits_only_for_inputs", vs.Implies(result != nil, onlyWaitedArgsIn(stmt, len(stmt.Arguments), gWaitChans)))
+	vs.Ensures("names_stable", namesAreStable())
 	vs.Ensures("pool_inv", poolInv(varPool))
-	vs.Modifies(vs.FieldOfAll(stmt.Arguments[0].Param.channelName), varPool.vars, gChans)
+	vs.Modifies(vs.FieldOfAll(stmt.Arguments[0].Param.channelName), varPool.vars, gWaitChans)
 	vs.Allocates()
 	return
 }
@@ -544,6 +563,7 @@ func inv_generateChannelWaitStatement(stmt *InjectorProviderCallStmt, varPool *V
 	vs.Invariant("every_waited_so_far", everyWaitedArgIn(stmt, kvcIdx, channels))
 	vs.Invariant("only_waited_so_far", onlyWaitedArgsIn(stmt, kvcIdx, channels))
 	vs.Invariant("empty_iff_none", (len(channels) == 0) == vs.Forall(kvcIdx, func(k int) bool { return !waitedArg(stmt, k) }))
+	vs.Invariant("names_stable", namesAreStable())
 }
 
 func everyChannelledReturnIn(stmt *InjectorProviderCallStmt, n int, chans []ast.Expr) bool {
@@ -567,11 +587,12 @@ func contract_generateChannelCloseStatement(stmt *InjectorProviderCallStmt, varP
 	vs.Requires(callStmtWellFormed(stmt) && returnsReferenced(stmt) && poolInv(varPool))
 	vs.Ensures("no_close_iff_no_channel", (result == nil) == vs.Forall(len(stmt.Returns), func(k int) bool { return !stmt.Returns[k].withChannel }))
 	// C03: the completion signal of every value that some other thread waits for is sent ...
-	vs.Ensures("closes_every_channelled_result", vs.Implies(result != nil, isCloseAll(result, gChans) && everyChannelledReturnIn(stmt, len(stmt.Returns), gChans)))
+	vs.Ensures("closes_every_channelled_result", vs.Implies(result != nil, isCloseAll(result, gCloseChans) && everyChannelledReturnIn(stmt, len(stmt.Returns), gCloseChans)))
 	// ... and nothing else is closed
-	vs.Ensures("closes_only_own_results", vs.Implies(result != nil, onlyChannelledReturnsIn(stmt, len(stmt.Returns), gChans)))
+	vs.Ensures("q_closes_only_own_results", vs.Implies(result != nil, onlyChannelledReturnsIn(stmt, len(stmt.Returns), gCloseChans)))
+	vs.Ensures("names_stable", namesAreStable())
 	vs.Ensures("pool_inv", poolInv(varPool))
-	vs.Modifies(vs.FieldOfAll(stmt.Returns[0].channelName), varPool.vars, gChans)
+	vs.Modifies(vs.FieldOfAll(stmt.Returns[0].channelName), varPool.vars, gCloseChans)
 	vs.Allocates()
 	return
 }
@@ -582,4 +603,241 @@ func inv_generateChannelCloseStatement(stmt *InjectorProviderCallStmt, varPool *
 	vs.Invariant("every_channelled_so_far", everyChannelledReturnIn(stmt, kvcIdx, channels))
 	vs.Invariant("only_channelled_so_far", onlyChannelledReturnsIn(stmt, kvcIdx, channels))
 	vs.Invariant("empty_iff_none", (len(channels) == 0) == vs.Forall(kvcIdx, func(k int) bool { return !stmt.Returns[k].withChannel }))
+	vs.Invariant("names_stable", namesAreStable())
+}
+
+// ---------------------------------------------------------------------------
+// One provider call: arguments, results, assignment, error check (C01, C02, C04, C06)
+// ---------------------------------------------------------------------------
+
+// namesVarOf: expression e is the identifier of p's variable.
+func namesVarOf(e ast.Expr, p *InjectorParam) bool { return p.name != "" && isIdentNamed(e, p.name) }
+
+// namesVarOrBlank: an unused result is assigned to the blank identifier.
+func namesVarOrBlank(e ast.Expr, p *InjectorParam) bool {
+	return (p.name == "" && isIdentNamed(e, "_")) || namesVarOf(e, p)
+}
+
+// namesAreStable: identifiers already given to a value or to its channel are never changed
+// (this is what makes the declaration, the producer and every consumer agree on the variable).
+func namesAreStable() bool {
+	return vs.ForallOldPtr(func(q *InjectorParam) bool {
+		return vs.Implies(vs.Old(q.name) != "", q.name == vs.Old(q.name)) && vs.Implies(vs.Old(q.channelName) != "", q.channelName == vs.Old(q.channelName))
+	})
+}
+
+//kvc:contract (*InjectorProviderCallStmt).buildArguments
+func contract_buildArguments(stmt *InjectorProviderCallStmt, varPool *VarPool) (result []ast.Expr) {
+	vs.Requires(callStmtWellFormed(stmt) && poolInv(varPool))
+	// C01/C02: the i-th actual argument is the variable of the i-th declared input
+	vs.Ensures("one_per_input_in_order", len(result) == len(stmt.Arguments) &&
+		vs.Forall(len(stmt.Arguments), func(i int) bool { return namesVarOf(result[i], stmt.Arguments[i].Param) }))
+	vs.Ensures("names_stable", namesAreStable())
+	vs.Ensures("pool_inv", poolInv(varPool))
+	vs.Modifies(vs.FieldOfAll(stmt.Arguments[0].Param.name), varPool.vars)
+	vs.Allocates()
+	return
+}
+
+//kvc:loop (*InjectorProviderCallStmt).buildArguments "for _, arg := range stmt.Arguments"
+func inv_buildArguments(stmt *InjectorProviderCallStmt, varPool *VarPool, args []ast.Expr, kvcIdx int) {
+	vs.Invariant("pool_inv", poolInv(varPool))
+	vs.Invariant("in_order_so_far", len(args) == kvcIdx && vs.Forall(kvcIdx, func(i int) bool { return namesVarOf(args[i], stmt.Arguments[i].Param) }))
+	vs.Invariant("names_stable", namesAreStable())
+}
+
+func returnsDistinct(stmt *InjectorProviderCallStmt) bool {
+	return vs.ForallInt2(func(i, j int) bool {
+		return vs.Implies(0 <= i && i < j && j < len(stmt.Returns), stmt.Returns[i] != stmt.Returns[j])
+	})
+}
+
+//kvc:contract (*InjectorProviderCallStmt).buildLhsExpressions
+func contract_buildLhsExpressions(stmt *InjectorProviderCallStmt, varPool *VarPool) (result []ast.Expr) {
+	vs.Requires(callStmtWellFormed(stmt) && returnsDistinct(stmt) && poolInv(varPool))
+	// C02: the i-th result of the provider is assigned to the variable of the i-th provided value
+	vs.Ensures("one_per_result_in_order", len(result) == len(stmt.Returns) &&
+		vs.Forall(len(stmt.Returns), func(i int) bool { return namesVarOrBlank(result[i], stmt.Returns[i]) }))
+	vs.Ensures("names_stable", namesAreStable())
+	vs.Ensures("pool_inv", poolInv(varPool))
+	vs.Modifies(vs.FieldOfAll(stmt.Returns[0].name), varPool.vars)
+	vs.Allocates()
+	return
+}
+
+//kvc:loop (*InjectorProviderCallStmt).buildLhsExpressions "for _, param := range stmt.Returns"
+func inv_buildLhsExpressions(stmt *InjectorProviderCallStmt, varPool *VarPool, lhs []ast.Expr, seenParams map[*InjectorParam]bool, kvcIdx int) {
+	vs.Invariant("pool_inv", poolInv(varPool))
+	vs.Invariant("seen_are_earlier", seenParams != nil && vs.ForallRef(func(q *InjectorParam) bool {
+		return vs.Implies(seenParams[q], vs.Exists(kvcIdx, func(j int) bool { return stmt.Returns[j] == q }))
+	}))
+	vs.Invariant("in_order_so_far", len(lhs) == kvcIdx && vs.Forall(kvcIdx, func(i int) bool { return namesVarOrBlank(lhs[i], stmt.Returns[i]) }))
+	vs.Invariant("names_stable", namesAreStable())
+}
+
+// isProviderCall: the expression `<provider>.Fn()(args...)`.
+func isProviderCall(e ast.Expr, provider ast.Expr, args []ast.Expr) bool {
+	return vs.TypeIs[*ast.CallExpr](e) && vs.As[*ast.CallExpr](e) != nil && vs.SameSlice(vs.As[*ast.CallExpr](e).Args, args) &&
+		vs.TypeIs[*ast.CallExpr](vs.As[*ast.CallExpr](e).Fun) && vs.As[*ast.CallExpr](vs.As[*ast.CallExpr](e).Fun) != nil &&
+		len(vs.As[*ast.CallExpr](vs.As[*ast.CallExpr](e).Fun).Args) == 0 &&
+		vs.TypeIs[*ast.SelectorExpr](vs.As[*ast.CallExpr](vs.As[*ast.CallExpr](e).Fun).Fun) &&
+		vs.As[*ast.SelectorExpr](vs.As[*ast.CallExpr](vs.As[*ast.CallExpr](e).Fun).Fun) != nil &&
+		vs.As[*ast.SelectorExpr](vs.As[*ast.CallExpr](vs.As[*ast.CallExpr](e).Fun).Fun).X == provider &&
+		vs.As[*ast.SelectorExpr](vs.As[*ast.CallExpr](vs.As[*ast.CallExpr](e).Fun).Fun).Sel != nil &&
+		vs.As[*ast.SelectorExpr](vs.As[*ast.CallExpr](vs.As[*ast.CallExpr](e).Fun).Fun).Sel.Name == "Fn"
+}
+
+//kvc:contract (*InjectorProviderCallStmt).buildProviderCall
+func contract_buildProviderCall(stmt *InjectorProviderCallStmt, args []ast.Expr) (result []ast.Expr) {
+	vs.Requires(stmt != nil && stmt.Provider != nil)
+	vs.Ensures("calls_the_declared_provider_with_args", len(result) == 1 && isProviderCall(result[0], stmt.Provider.ASTExpr, args))
+	vs.Allocates()
+	return
+}
+
+// isAssign: `lhs... <tok> rhs...`.
+func isAssign(s ast.Stmt, lhs, rhs []ast.Expr, tok token.Token) bool {
+	return vs.TypeIs[*ast.AssignStmt](s) && vs.As[*ast.AssignStmt](s) != nil && vs.As[*ast.AssignStmt](s).Tok == tok &&
+		vs.SameSlice(vs.As[*ast.AssignStmt](s).Lhs, lhs) && vs.SameSlice(vs.As[*ast.AssignStmt](s).Rhs, rhs)
+}
+
+//kvc:contract (*InjectorProviderCallStmt).buildAssignmentStatement
+func contract_buildAssignmentStatement(stmt *InjectorProviderCallStmt, lhs, rhs []ast.Expr, hasChains bool) (result ast.Stmt) {
+	// C04: variables are pre-declared in a var block exactly when goroutines exist, so `=` is used then and `:=` otherwise
+	vs.Ensures("assign_iff_predeclared", (hasChains && isAssign(result, lhs, rhs, token.ASSIGN)) || (!hasChains && isAssign(result, lhs, rhs, token.DEFINE)))
+	vs.Allocates()
+	return
+}
+
+// isErrCheck: `if <errIdent> != nil { body }`.
+func isErrCheck(s ast.Stmt, errIdent *ast.Ident, body []ast.Stmt) bool {
+	return vs.TypeIs[*ast.IfStmt](s) && vs.As[*ast.IfStmt](s) != nil && vs.As[*ast.IfStmt](s).Init == nil && vs.As[*ast.IfStmt](s).Else == nil &&
+		vs.TypeIs[*ast.BinaryExpr](vs.As[*ast.IfStmt](s).Cond) && vs.As[*ast.BinaryExpr](vs.As[*ast.IfStmt](s).Cond) != nil &&
+		vs.As[*ast.BinaryExpr](vs.As[*ast.IfStmt](s).Cond).Op == token.NEQ &&
+		vs.As[*ast.BinaryExpr](vs.As[*ast.IfStmt](s).Cond).X == ast.Expr(errIdent) &&
+		isIdentNamed(vs.As[*ast.BinaryExpr](vs.As[*ast.IfStmt](s).Cond).Y, "nil") &&
+		vs.As[*ast.IfStmt](s).Body != nil && vs.SameSlice(vs.As[*ast.IfStmt](s).Body.List, body)
+}
+
+//kvc:contract (*InjectorProviderCallStmt).buildErrorHandlingStatement
+func contract_buildErrorHandlingStatement(stmt *InjectorProviderCallStmt, errIdent *ast.Ident, returnErrStmts func(ast.Expr) []ast.Stmt) (result ast.Stmt) {
+	// C06: a failing provider makes the enclosing function leave through its error continuation with THAT error
+	vs.Ensures("returns_the_providers_error", vs.Implies(returnErrStmts != nil, isErrCheck(result, errIdent, returnErrStmts(ast.Expr(errIdent)))))
+	// without an error continuation the error would be dropped: callers must not let that happen for a fallible provider
+	vs.Ensures("no_continuation_no_check", vs.Implies(returnErrStmts == nil, vs.TypeIs[*ast.EmptyStmt](result)))
+	vs.Allocates()
+	return
+}
+
+// ---------------------------------------------------------------------------
+// hasChainStmts / the complete step emitted for one provider call
+// ---------------------------------------------------------------------------
+
+func injectorHasChains(injector *Injector) bool {
+	return vs.Exists(len(injector.Stmts), func(i int) bool { return vs.TypeIs[*InjectorChainStmt](injector.Stmts[i]) })
+}
+
+//kvc:contract hasChainStmts
+func contract_hasChainStmts(injector *Injector) (result bool) {
+	vs.Requires(injector != nil)
+	vs.Ensures("iff_some_goroutine", result == injectorHasChains(injector))
+	return
+}
+
+//kvc:loop hasChainStmts "for _, stmt := range injector.Stmts"
+func inv_hasChainStmts(injector *Injector, kvcIdx int) {
+	vs.Invariant("none_so_far", vs.Forall(kvcIdx, func(i int) bool { return !vs.TypeIs[*InjectorChainStmt](injector.Stmts[i]) }))
+}
+
+// ghost: the pieces the step is assembled from
+var (
+	gStepArgs []ast.Expr
+	gStepLhs  []ast.Expr
+	gStepRhs  []ast.Expr
+)
+
+//kvc:ghost (*InjectorProviderCallStmt).Stmt before "assignStmt := stmt.buildAssignmentStatement"
+func ghostStepPieces(args, lhs, rhs []ast.Expr) {
+	gStepArgs = args
+	gStepLhs = lhs
+	gStepRhs = rhs
+}
+
+func b2i(b bool) int {
+	if b {
+		return 1
+	}
+	return 0
+}
+
+func needsWait(stmt *InjectorProviderCallStmt, injector *Injector) bool {
+	return injectorHasChains(injector) && vs.Exists(len(stmt.Arguments), func(k int) bool { return waitedArg(stmt, k) })
+}
+
+func needsClose(stmt *InjectorProviderCallStmt, injector *Injector) bool {
+	return injectorHasChains(injector) && vs.Exists(len(stmt.Returns), func(k int) bool { return stmt.Returns[k].withChannel })
+}
+
+// callIndex: position of the assignment that performs the provider call inside the emitted step.
+func callIndex(stmt *InjectorProviderCallStmt, injector *Injector) int {
+	return b2i(needsWait(stmt, injector)) + b2i(stmt.Provider.IsReturnError)
+}
+
+// isVarErrDecl: `var <id> error`.
+func isVarErrDecl(s ast.Stmt, id ast.Expr) bool {
+	return vs.TypeIs[*ast.DeclStmt](s) && vs.As[*ast.DeclStmt](s) != nil &&
+		vs.TypeIs[*ast.GenDecl](vs.As[*ast.DeclStmt](s).Decl) && vs.As[*ast.GenDecl](vs.As[*ast.DeclStmt](s).Decl) != nil &&
+		vs.As[*ast.GenDecl](vs.As[*ast.DeclStmt](s).Decl).Tok == token.VAR && len(vs.As[*ast.GenDecl](vs.As[*ast.DeclStmt](s).Decl).Specs) == 1 &&
+		vs.TypeIs[*ast.ValueSpec](vs.As[*ast.GenDecl](vs.As[*ast.DeclStmt](s).Decl).Specs[0]) &&
+		vs.As[*ast.ValueSpec](vs.As[*ast.GenDecl](vs.As[*ast.DeclStmt](s).Decl).Specs[0]) != nil &&
+		len(vs.As[*ast.ValueSpec](vs.As[*ast.GenDecl](vs.As[*ast.DeclStmt](s).Decl).Specs[0]).Names) == 1 &&
+		ast.Expr(vs.As[*ast.ValueSpec](vs.As[*ast.GenDecl](vs.As[*ast.DeclStmt](s).Decl).Specs[0]).Names[0]) == id &&
+		isIdentNamed(vs.As[*ast.ValueSpec](vs.As[*ast.GenDecl](vs.As[*ast.DeclStmt](s).Decl).Specs[0]).Type, "error")
+}
+
+//kvc:contract (*InjectorProviderCallStmt).Stmt
+func contract_ProviderCallStmt_Stmt(stmt *InjectorProviderCallStmt, varPool *VarPool, injector *Injector, returnErrStmts func(ast.Expr) []ast.Stmt) (result []ast.Stmt, imports []string) {
+	vs.Requires(callStmtWellFormed(stmt) && returnsDistinct(stmt) && returnsReferenced(stmt) && stmt.Provider != nil && poolInv(varPool) &&
+		injectorArgsNonNil(injector) && importsNonNil(stmt.Provider.ReferencedImports))
+	// C06: a provider that can fail is only ever emitted where an error can be returned
+	vs.Requires(!stmt.Provider.IsReturnError || returnErrStmts != nil)
+	vs.Ensures("step_length", len(result) == callIndex(stmt, injector)+1+b2i(stmt.Provider.IsReturnError)+b2i(needsClose(stmt, injector)))
+	// C01: the wait for every cross-thread input precedes the call
+	vs.Ensures("wait_before_call", vs.Implies(needsWait(stmt, injector),
+		isWaitAll(result[0], gWaitChans, injectorHasCtx(injector) && returnErrStmts != nil) && everyWaitedArgIn(stmt, len(stmt.Arguments), gWaitChans)))
+	// C01/C02: the call passes the inputs' variables in declaration order and assigns the results' variables in order
+	vs.Ensures("call_shape", isAssign(result[callIndex(stmt, injector)], gStepLhs, gStepRhs, assignTok(injectorHasChains(injector))) &&
+		len(gStepRhs) == 1 && isProviderCall(gStepRhs[0], stmt.Provider.ASTExpr, gStepArgs) &&
+		len(gStepArgs) == len(stmt.Arguments) && vs.Forall(len(stmt.Arguments), func(i int) bool { return namesVarOf(gStepArgs[i], stmt.Arguments[i].Param) }) &&
+		len(gStepLhs) == len(stmt.Returns)+b2i(stmt.Provider.IsReturnError) &&
+		vs.Forall(len(stmt.Returns), func(i int) bool { return namesVarOrBlank(gStepLhs[i], stmt.Returns[i]) }))
+	// C06: the error is declared, received as the last result and checked right after the call, with the provider's own error
+	vs.Ensures("error_checked_after_call", vs.Implies(stmt.Provider.IsReturnError,
+		vs.TypeIs[*ast.Ident](gStepLhs[len(stmt.Returns)]) && isVarErrDecl(result[callIndex(stmt, injector)-1], gStepLhs[len(stmt.Returns)]) &&
+			isErrCheck(result[callIndex(stmt, injector)+1], vs.As[*ast.Ident](gStepLhs[len(stmt.Returns)]), returnErrStmts(gStepLhs[len(stmt.Returns)]))))
+	// C03/C06: completion is signalled last - after the call and after the error check
+	vs.Ensures("close_last", vs.Implies(needsClose(stmt, injector),
+		isCloseAll(result[len(result)-1], gCloseChans) && everyChannelledReturnIn(stmt, len(stmt.Returns), gCloseChans)))
+	vs.Ensures("names_stable", namesAreStable())
+	vs.Ensures("pool_inv", poolInv(varPool))
+	vs.Modifies(vs.FieldOfAll(stmt.Returns[0].channelName), vs.FieldOfAll(stmt.Returns[0].name), vs.FieldOfAll(injector.Args[0].Param.ReferencedImports[""].IsUsed),
+		varPool.vars, gWaitChans, gCloseChans, gStepArgs, gStepLhs, gStepRhs)
+	vs.Allocates()
+	return
+}
+
+// importsNonNil: an import table never maps a path to nil.
+func importsNonNil(m map[string]*Import) bool {
+	return vs.ForallString(func(k string) bool { return vs.Implies(vs.Has(m, k), m[k] != nil) })
+}
+
+func assignTok(hasChains bool) token.Token {
+	if hasChains {
+		return token.ASSIGN
+	}
+	return token.DEFINE
+}
+
+//kvc:loop (*InjectorProviderCallStmt).Stmt "for _, reference := range stmt.Provider.ReferencedImports"
+func inv_Stmt_imports() {
 }
